@@ -1712,7 +1712,14 @@ func updateArraySlice(v []any, m map[string]any, path []any, n any, a allocator)
 		}
 		return v, nil
 	}
-	u, err := update(v[start:end], path, n, a)
+	x := v[start:end]
+	if len(path) > 0 {
+		// The slice shares its backing array (and, when start is 0, its address)
+		// with v, so it must not be updated in place.
+		x = a.makeArray(end-start, 0)
+		copy(x, v[start:end])
+	}
+	u, err := update(x, path, n, a)
 	if err != nil {
 		return nil, err
 	}
